@@ -68,6 +68,20 @@ def contradicts(event_words, constraint_words):
     return out
 
 
+def contradicts_any(event_words, cons):
+    """the event contradicts the vocabulary of SOME variant the constrained value may hold here"""
+    out = []
+    for vs in cons.values():
+        if all(words(v) for v in vs):
+            for v in sorted(vs):
+                for e, c in contradicts(event_words, words(v)):
+                    out.append((e, "%s (%s)" % (c, v)))
+        else:
+            for e, c in contradicts(event_words, common_words(vs)):
+                out.append((e, c))
+    return out
+
+
 class Site:
     """all enum switches of one function, with per-block variant constraints"""
 
@@ -95,8 +109,9 @@ class Site:
             elif a[0] == "notvariant" and a[1] in self.enum_of:
                 allv = self.variants[self.enum_of[a[1]]]
                 out[a[1]] = set(allv) - set(a[2])
-        # keep only constraints that carry polarity vocabulary
-        return {k: v for k, v in out.items() if common_words(v)}
+        # keep only constraints that carry polarity vocabulary: either every allowed variant is a polarity-named one (an arm that
+        # lists reset/clock variants), or the allowed variants share a word; a wildcard remainder says nothing
+        return {k: v for k, v in out.items() if v and (all(words(x) for x in v) or common_words(v))}
 
 
 def dest_names(f, local, fn_name, adts, seen=None, parity=0, depth=0):
@@ -220,7 +235,7 @@ def run(world, tier, info, only=None):
                             if ew in ("posedge", "negedge"):
                                 continue
                             n_events["R1"] += 1
-                            bad = contradicts({ew}, cw)
+                            bad = contradicts_any({ew}, cons)
                             key = "%s/%s" % (short, nm)
                             ck.ob("R1", "bool:%s=%s@%s" % (key, v, _cons_key(cons)), not bad, site(s, stmt[3]),
                                   "%s is %s where the value is one of %s" % (nm, v, _cons_txt(cons)) if not bad else
@@ -237,7 +252,7 @@ def run(world, tier, info, only=None):
                             for wd in words(nm):
                                 ew = wd if val else OPP[wd]
                                 n_events["R1"] += 1
-                                bad = contradicts({ew}, cw)
+                                bad = contradicts_any({ew}, cons)
                                 ck.ob("R1", "tuple:%s/.%d(%s)=%s@%s" % (short, i, nm, val, _cons_key(cons)), not bad, site(s, stmt[3]),
                                       "tuple position %d (%s) is %s where the value is one of %s" % (i, nm, val, _cons_txt(cons)) if not bad else
                                       "tuple position %d (%s) is %s where the value is one of %s: '%s' contradicts '%s'" % (i, nm, val, _cons_txt(cons), ew, bad[0][1]))
@@ -246,7 +261,7 @@ def run(world, tier, info, only=None):
                     ew = words(rv[1].get("variant"))
                     if ew:
                         n_events["R3"] += 1
-                        bad = contradicts(ew, cw)
+                        bad = contradicts_any(ew, cons)
                         missing = [x for x in cw if x in ("high", "low", "async", "sync") and x not in ew and OPP[x] not in ew and
                                    rv[1]["adt"].endswith("ResetType")]
                         ck.ob("R3", "map:%s/%s@%s" % (short, rv[1].get("variant"), _cons_key(cons)), not bad, site(s, stmt[3]),
@@ -261,7 +276,7 @@ def run(world, tier, info, only=None):
                             ew = words(pr[2])
                             if ew:
                                 n_events["R4"] += 1
-                                bad = contradicts(ew, cw)
+                                bad = contradicts_any(ew, cons)
                                 ck.ob("R4", "field:%s/%s@%s" % (short, pr[2], _cons_key(cons)), not bad, site(s, stmt[3]),
                                       "build.%s is used where the value is one of %s" % (pr[2], _cons_txt(cons)) if not bad else
                                       "build.%s is used where the value is one of %s ('%s' vs '%s')" % (pr[2], _cons_txt(cons), bad[0][0], bad[0][1]))
@@ -277,7 +292,7 @@ def run(world, tier, info, only=None):
                         r, pth = flow.access_path(f, a)
                         if r[0] == "const" and isinstance(r[1], str) and r[1] in ("posedge", "negedge"):
                             n_events["R2"] += 1
-                            bad = contradicts({r[1]}, cw)
+                            bad = contradicts_any({r[1]}, cons)
                             ck.ob("R2", "keyword:%s/%s@%s" % (short, r[1], _cons_key(cons)), not bad, site(s, t["l"]),
                                   "\"%s\" is emitted where the value is one of %s" % (r[1], _cons_txt(cons)) if not bad else
                                   "\"%s\" is emitted where the value is one of %s ('%s' vs '%s')" % (r[1], _cons_txt(cons), bad[0][0], bad[0][1]))
